@@ -133,7 +133,7 @@ def execute(chunk):
 # ------------------------------------------------------------------------------------------------
 def gen_cases(run):
     cases = []
-    maxlen = 4 if run.tier == 'quick' else 5
+    maxlen = 4 if run.tier == 'quick' else 6
     # exhaustive: alphabet {0,1,2}, all histories of length iters+1, iters = 0..maxlen
     for iters in range(0, maxlen + 1):
         for hist in itertools.product([0.0, 1.0, 2.0], repeat=iters + 1):
